@@ -30,13 +30,13 @@ CASES = {   # function -> parameter kinds
     "bool_ops": ["int", "int"], "byte_in": ["bytes", "byte"], "bytes_eq_prefix": ["bytes"],
     "str_concat": ["str", "str"], "chr_class": ["byte"], "bytes_of_list": ["byte", "byte"], "loop_sum": ["int"],
     "ternary": ["int"], "tuple_ret": ["int", "bytes"], "negative_index_slice": ["bytes"], "length_guard": ["bytes"],
-    "all_bytes_small": ["bytes"], "any_byte_zero": ["bytes"],
+    "all_bytes_small": ["bytes"], "any_byte_zero": ["bytes"], "any_nonzero": ["zbytes"], "all_nonzero": ["zbytes"],
 }
 REPO_CASES = [   # (file, qualname, [kinds], native accessor, extra parameter specs)
     ("ledger/pin.py", "BasePin.is_valid", ["bytes", "bool"], lambda: importlib.import_module("ledger.pin").BasePin.is_valid,
      dict(cls=VF.REPO("ledger.pin:BasePin"))),
 ]
-SPEC = {"int": INT_, "nat": INT_, "byte": INT_, "bytes": BYTES_, "str": STR_, "bool": BOOL_}
+SPEC = {"int": INT_, "nat": INT_, "byte": INT_, "bytes": BYTES_, "zbytes": BYTES_, "str": STR_, "bool": BOOL_}
 
 
 def rand_value(rnd, kind):
@@ -52,6 +52,8 @@ def rand_value(rnd, kind):
         n = rnd.choice([0, 1, 2, 3, 4, 5, 8, 9])
         pool = [b"abc", b"HSM", b"\x00", b"\xff", b"A1", b"zz9"]
         return (rnd.choice(pool) + bytes(rnd.getrandbits(8) for _ in range(n)))[:rnd.choice([n, n + 3])]
+    if kind == "zbytes":
+        return rnd.choice([b"", b"\x00", b"\x00\x00\x00", b"\x00\x01", b"\x05\x00", b"\x07\x09", bytes(rnd.getrandbits(1) for _ in range(4))])
     if kind == "str":
         return "".join(rnd.choice("ab:0 Z") for _ in range(rnd.choice([0, 1, 3, 6])))
     raise ValueError(kind)
@@ -106,7 +108,7 @@ def const_term(kind, val):
         return tm.Int(val)
     if kind == "bool":
         return tm.Bool(val)
-    if kind == "bytes":
+    if kind in ("bytes", "zbytes"):
         return tm.BytesLit(val)
     if kind == "str":
         return tm.Str(val)
